@@ -428,11 +428,9 @@ private:
                                 , int         plane
                                 )
    {
-       ///@todo: why is
-       /// using row_buffer_helper_t = Buffer;
-       /// not working? I get compiler error with MSVC10.
-       /// read_stripped_data IS working.
-       using row_buffer_helper_t = detail::row_buffer_helper_view<View>;
+       // the tile holds pixels of the file's type (Buffer), not of the destination view,
+       // which differs when the pixels are converted while reading
+       using row_buffer_helper_t = Buffer;
 
        using it_t = typename row_buffer_helper_t::iterator_t;
 
@@ -551,11 +549,9 @@ private:
                             , int         plane
                             )
    {
-       ///@todo: why is
-       /// using row_buffer_helper_t = Buffer;
-       /// not working? I get compiler error with MSVC10.
-       /// read_stripped_data IS working.
-       using row_buffer_helper_t = detail::row_buffer_helper_view<View>;
+       // the tile holds pixels of the file's type (Buffer), not of the destination view,
+       // which differs when the pixels are converted while reading
+       using row_buffer_helper_t = Buffer;
 
        using it_t = typename row_buffer_helper_t::iterator_t;
 
@@ -622,6 +618,14 @@ private:
       std::size_t size_to_allocate = buffer_size< typename View::value_type >( dst_view.width()
                                                                              , is_view_bit_aligned_t() );
       row_buffer_helper_t row_buffer_helper( size_to_allocate, true );
+
+      // libtiff writes a whole scanline, whose size follows from the tags in the file; a file whose
+      // tags contradict each other (e.g. four samples per pixel with a gray photometric
+      // interpretation) must not make it write past the buffer, which is sized for the pixel type
+      io_error_if( row_buffer_helper.buffer().size() * sizeof( typename row_buffer_helper_t::element_t )
+                   < this->_io_dev.get_scanline_size()
+                 , "Inconsistent image format in tiff file."
+                 );
 
       it_t begin = row_buffer_helper.begin();
 
